@@ -26,10 +26,12 @@ type wConnAcct struct {
 	maxData     [2]uint64            // credit delivered to sender dir (connection level)
 	maxStream   [2]map[uint64]uint64 // credit delivered to sender dir (per stream), from MAX_STREAM_DATA
 	tpsKnown    [2]bool              // initial credit of sender dir known (peer's transport parameters seen)
-	delivered   [2][3]map[int64]bool // packet numbers delivered undamaged to the receiver of dir
-	firstGenPN  [2]map[int]int64     // first packet number sent per key generation
-	genSeenFrom [2]int               // highest generation delivered to endpoint from peer, indexed by receiver side's sending dir
-	hsDoneDeliv bool                 // HANDSHAKE_DONE delivered to the client
+	delivered   [2][3]map[int64]bool // packet numbers that may have been delivered intact to the receiver of dir
+	surely      [2][3]map[int64]bool // packet numbers certainly delivered intact
+	maxSurely   [2][3]int64
+	firstGenPN  [2]map[int]int64 // first packet number sent per key generation
+	genSeenFrom [2]int           // highest generation delivered to endpoint from peer, indexed by receiver side's sending dir
+	hsDoneDeliv bool             // HANDSHAKE_DONE delivered to the client
 	hsDoneSent  bool
 	ackDue      [2]map[int64]int64 // receiver side (by its sending dir): pn of ack-eliciting 1-RTT packet -> deadline ns
 	sent1RTT    [2]bool
@@ -86,7 +88,9 @@ func (o *WireOracles) acct(c *TapConn) *wConnAcct {
 			a.ackDue[d] = map[int64]int64{}
 			for s := 0; s < 3; s++ {
 				a.lastPN[d][s] = -1
+				a.maxSurely[d][s] = -1
 				a.delivered[d][s] = map[int64]bool{}
+				a.surely[d][s] = map[int64]bool{}
 			}
 		}
 		o.accts[c] = a
@@ -271,18 +275,27 @@ func ackCovers(f *TapFrame, pn int64) bool {
 }
 
 func (o *WireOracles) onDeliver(rec *DgramRec, data []byte, damaged bool) {
-	if damaged {
-		return
-	}
 	now := o.w.NowNS()
-	for _, p := range rec.Pkts {
-		if !p.Opened || p.Conn == nil {
+	for i, p := range rec.Pkts {
+		if !p.Opened || p.Conn == nil || p.Conn.Shadow || rec.PktState[i] == 2 {
 			continue
 		}
 		a := o.acct(p.Conn)
 		d, sp := p.Dir, p.Space()
-		first := !a.delivered[d][sp][p.PN]
+		// superset: everything that may have reached the endpoint intact (what an ACK may legitimately cover)
 		a.delivered[d][sp][p.PN] = true
+		if rec.PktState[i] != 0 {
+			continue
+		}
+		first := !a.surely[d][sp][p.PN]
+		a.surely[d][sp][p.PN] = true
+		// a late packet below what the peer allowed the receiver to forget is dropped as a potential duplicate:
+		// the timeliness obligation is only stated for packets that are a new largest
+		newLargest := p.PN > a.maxSurely[d][sp]
+		if newLargest {
+			a.maxSurely[d][sp] = p.PN
+		}
+		first = first && newLargest
 		if p.Type == Tap1RTT {
 			if g := p.Conn.generationOf(d, p); g > a.genSeenFrom[1-d] {
 				a.genSeenFrom[1-d] = g
